@@ -54,7 +54,8 @@ var c12ScopePkgs = map[string]bool{
 
 type c12Exempt struct {
 	Key    string   `json:"key"`
-	CKey   string   `json:"ckey,omitempty"` // canonical form of key (core/canon.go), written by `yfcheck -canontables`
+	CKey   string   `json:"ckey,omitempty"`  // the key the checker prints for the construct (core.KeyStr); what is matched
+	CKey2  string   `json:"ckey2,omitempty"` // its short form (core.ShortKey): matched when the value is computed elsewhere
 	Rule   string   `json:"rule,omitempty"`
 	Reason string   `json:"reason"`
 	Needs  []string `json:"needs_fact_mentioning,omitempty"` // the exemption only holds under a dominating guard mentioning these names
@@ -137,8 +138,8 @@ func C12(r *core.Report) {
 			r.OK(rule, key, posn, okMsg)
 			return
 		}
-		ckey := key // keys are canonical already
-		if reason, listed := table[ckey]; listed {
+		if ckey, listed := exemptKey(table, key); listed {
+			reason := table[ckey]
 			usedExempt[ckey] = true
 			needOK := true
 			if needs := exemptNeeds[ckey]; len(needs) > 0 {
@@ -155,6 +156,9 @@ func C12(r *core.Report) {
 						if all && curGraph.FactFresh(fc, curNode) {
 							needOK = true
 						}
+					}
+					if !needOK && len(needs) == 1 && guardedInProducer(p, f, curGraph, curNode, needs[0]) {
+						needOK = true
 					}
 				}
 			}
@@ -281,6 +285,9 @@ func C12(r *core.Report) {
 	// stale table entries are reported (not as violations) so the table stays minimal
 	var stale []string
 	for k := range table {
+		if strings.HasPrefix(k, "short:") {
+			continue
+		}
 		if !usedExempt[k] {
 			stale = append(stale, k)
 		}
@@ -882,21 +889,30 @@ func narrowArith(info *types.Info, e ast.Expr) bool {
 func invariantHolds(p *core.Prog, f *core.Func, mentions []string, depth int) string {
 	g := p.Graph(f)
 	info := f.Pkg.TypesInfo
-	bad := ""
-	nret := 0
-	for _, rn := range g.Returns() {
-		if definitelyErrorReturn(g, f, rn) {
+	canon := func(e ast.Node) string { return p.CanonText(f.RootKey(), core.ExprStr(e)) }
+	// the edges after which the validation is known to have been made:
+	//  (a) the surviving side of a rejecting guard that mentions every listed quantity,
+	//  (b) the nil outcome of a helper that receives the quantities and itself validates them on every success path,
+	//  (c) the side on which a mentioned pointer is nil (nothing to compare with: the `p != nil && ...` form of a guard)
+	passed := map[*core.GNode]bool{}
+	for _, e := range g.Nodes {
+		if e.Kind != core.KEdge || e.Ast == nil {
 			continue
 		}
-		nret++
-		ok := false
-		for _, fc := range g.FactsAt(rn) {
+		for _, fc := range e.Facts() {
 			if fc.Tag != nil {
 				continue
 			}
-			// delegated validation: err == nil of a helper call
-			if x, isNil, isCmp := core.NilCompare(info, fc.Expr); isCmp && isNil == fc.Truth && depth < 3 {
-				if eo := core.ObjOf(info, x); eo != nil && core.IsErrorType(eo.Type()) {
+			if x, isNil, isCmp := core.NilCompare(info, fc.Expr); isCmp && isNil == fc.Truth {
+				// (c)
+				cx := canon(x)
+				for _, m := range mentions {
+					if cx == m {
+						passed[e] = true
+					}
+				}
+				// (b) delegated validation: err == nil of a helper call
+				if eo := core.ObjOf(info, x); eo != nil && core.IsErrorType(eo.Type()) && depth < 3 {
 					var call *ast.CallExpr
 					ast.Inspect(f.Body, func(n ast.Node) bool {
 						as, isA := n.(*ast.AssignStmt)
@@ -924,7 +940,7 @@ func invariantHolds(p *core.Prog, f *core.Func, mentions []string, depth int) st
 									if po == nil {
 										continue
 									}
-									as := p.CanonText(f.RootKey(), core.ExprStr(a))
+									as := canon(a)
 									ptok := p.CanonText(h.RootKey(), po.Name())
 									for i := range tr {
 										if core.ContainsCanon(tr[i], as) {
@@ -935,32 +951,30 @@ func invariantHolds(p *core.Prog, f *core.Func, mentions []string, depth int) st
 									}
 								}
 								if invariantHolds(p, h, tr, depth+1) == "" {
-									ok = true
+									passed[e] = true
 								}
 							}
 						}
 					}
 				}
 			}
-			s := p.CanonText(f.RootKey(), core.ExprStr(fc.Expr))
+			// (a) - the guard may be written on locals that hold the mentioned quantities (keyLen := len(key))
+			s := canon(fc.Expr)
+			sx := p.CanonText(f.RootKey(), expandLocals(f, fc.Expr, 0))
 			all := true
 			for _, m := range mentions {
-				if !core.ContainsCanon(s, m) {
+				if !core.ContainsCanon(s, m) && !core.ContainsCanon(sx, m) {
 					all = false
 				}
 			}
-			if !all {
-				continue
-			}
-			// a guard computed in a narrow integer type can wrap around and let through what it is meant to reject
-			if narrowArith(info, fc.Expr) {
-				continue
+			if !all || narrowArith(info, fc.Expr) {
+				continue // (a guard computed in a narrow integer type can wrap around and let through what it should reject)
 			}
 			// the other branch must reject (reach only error returns before re-joining)
 			var opp *core.GNode
-			for _, pr := range fc.Edge.Preds {
+			for _, pr := range e.Preds {
 				for _, sx := range pr.Succs {
-					if sx != fc.Edge && sx.Kind == core.KEdge {
+					if sx != e && sx.Kind == core.KEdge {
 						opp = sx
 					}
 				}
@@ -968,20 +982,24 @@ func invariantHolds(p *core.Prog, f *core.Func, mentions []string, depth int) st
 			if opp == nil {
 				continue
 			}
-			rejects := false
 			for x := range g.ReachFromIncl(opp, nil) {
 				if x.Kind == core.KStmt && g.Dominates(opp, x) {
 					if _, isRet := x.Ast.(*ast.ReturnStmt); isRet && definitelyErrorReturn(g, f, x) {
-						rejects = true
+						passed[e] = true
 					}
 				}
 			}
-			if rejects {
-				ok = true
-			}
 		}
-		if !ok {
-			bad = "the return at " + p.Rel(rn.Ast.Pos()) + " is not dominated by a rejecting guard mentioning " + strings.Join(mentions, ", ")
+	}
+	bad := ""
+	nret := 0
+	for _, rn := range g.Returns() {
+		if definitelyErrorReturn(g, f, rn) {
+			continue
+		}
+		nret++
+		if path := g.PathAvoiding(g.Entry, func(x *core.GNode) bool { return x == rn }, func(x *core.GNode) bool { return passed[x] }); path != nil {
+			bad = "the return at " + p.Rel(rn.Ast.Pos()) + " can be reached without passing a rejecting guard that mentions " + strings.Join(mentions, ", ")
 		}
 	}
 	if nret == 0 {
@@ -989,6 +1007,7 @@ func invariantHolds(p *core.Prog, f *core.Func, mentions []string, depth int) st
 	}
 	return bad
 }
+
 
 // constNeed: the number of bytes a bounds site needs from its base when the bound is a constant: x[k] needs k+1,
 // x[a:b] needs b, x[a:] needs a.
@@ -1144,12 +1163,10 @@ func linkSlotsHoldCidlinks(p *core.Prog) bool {
 	}
 	info := pkg.TypesInfo
 	isLinkT := func(t types.Type) bool { return t != nil && strings.HasSuffix(t.String(), "datamodel.Link") }
+	// the value stored has the static type cidlink.Link (a literal, a local or the result of a helper of that type): its
+	// dynamic type in the interface slot is then cidlink.Link
 	isCidlinkLit := func(e ast.Expr) bool {
-		cl, ok := core.Unparen(e).(*ast.CompositeLit)
-		if !ok {
-			return false
-		}
-		t := info.TypeOf(cl)
+		t := info.TypeOf(core.Unparen(e))
 		return t != nil && strings.HasSuffix(t.String(), "linking/cid.Link")
 	}
 	n := 0
@@ -1189,4 +1206,130 @@ func linkSlotsHoldCidlinks(p *core.Prog) bool {
 		linkSlotsOK = false
 	}
 	return linkSlotsOK
+}
+
+// guardedInProducer: the guard an exemption asks for was moved, together with the computation, into a helper:
+//   v, err := helper(...); if err != nil { return ... }   ...use of v...
+// v (a local whose canonical token is `need`, mentioned at the site) is the result of a repository function whose error
+// is known to be nil at the site, and every success return of that function returns a value that one of the facts
+// dominating that return mentions.
+func guardedInProducer(p *core.Prog, f *core.Func, g *core.Graph, n *core.GNode, need string) bool {
+	if n == nil || n.Ast == nil {
+		return false
+	}
+	info := f.Pkg.TypesInfo
+	var cands []types.Object
+	ast.Inspect(n.Ast, func(m ast.Node) bool {
+		if id, ok := m.(*ast.Ident); ok {
+			if o := info.Uses[id]; o != nil && core.LocalToken(f, o) == need {
+				cands = append(cands, o)
+			}
+		}
+		return true
+	})
+	for _, o := range cands {
+		for _, dn := range stmtNodes(g) {
+			as, ok := dn.Ast.(*ast.AssignStmt)
+			if !ok || len(as.Rhs) != 1 || len(as.Lhs) < 2 || !g.Dominates(dn, n) {
+				continue
+			}
+			idx := -1
+			for i, l := range as.Lhs {
+				if core.ObjOf(info, l) == o {
+					idx = i
+				}
+			}
+			call, isC := core.Unparen(as.Rhs[0]).(*ast.CallExpr)
+			eo := core.ObjOf(info, as.Lhs[len(as.Lhs)-1])
+			if idx < 0 || !isC || eo == nil || !core.IsErrorType(eo.Type()) {
+				continue
+			}
+			fo := core.Callee(info, call)
+			if fo == nil {
+				continue
+			}
+			h := p.ByObj[fo.Origin()]
+			if h == nil || h.Body == nil {
+				continue
+			}
+			// err == nil at the site
+			errNil := false
+			for _, fc := range g.FactsAt(n) {
+				if x, isNil, isCmp := core.NilCompare(info, fc.Expr); isCmp && isNil == fc.Truth && core.ObjOf(info, x) == eo && fc.Edge != nil && g.Dominates(dn, fc.Edge) {
+					errNil = true
+				}
+			}
+			if !errNil {
+				continue
+			}
+			hg := p.Graph(h)
+			hi := h.Pkg.TypesInfo
+			all, nret := true, 0
+			for _, rn := range hg.Returns() {
+				if definitelyErrorReturn(hg, h, rn) {
+					continue
+				}
+				res := returnResults(rn)
+				if idx >= len(res) {
+					all = false
+					continue
+				}
+				nret++
+				ro := core.ObjOf(hi, stripConvs(hi, res[idx]))
+				guarded := false
+				for _, fc := range hg.FactsAt(rn) {
+					if ro != nil && fc.Tag == nil && core.Mentions(hi, fc.Expr, ro) && hg.FactFresh(fc, rn) {
+						guarded = true
+					}
+				}
+				if !guarded {
+					all = false
+				}
+			}
+			if all && nret > 0 {
+				return true
+			}
+		}
+	}
+	return false
+}
+
+// expandLocals prints e with every local that is assigned exactly once replaced by (its defining expression), two levels
+// deep: a guard on `keyLen` with `keyLen := len(key)` reads as a guard on len(key).
+func expandLocals(f *core.Func, e ast.Expr, depth int) string {
+	info := f.Pkg.TypesInfo
+	type saved struct {
+		id   *ast.Ident
+		name string
+	}
+	var undo []saved
+	ast.Inspect(e, func(m ast.Node) bool {
+		id, ok := m.(*ast.Ident)
+		if !ok {
+			return true
+		}
+		v, isV := info.Uses[id].(*types.Var)
+		if !isV || v.IsField() || isParamOf(f.Root(), v) {
+			return true
+		}
+		d := singleDef(f, v)
+		if d == nil {
+			return true
+		}
+		if _, isLit := core.Unparen(d).(*ast.FuncLit); isLit {
+			return true
+		}
+		txt := core.ExprStr(d)
+		if depth < 1 {
+			txt = expandLocals(f, d, depth+1)
+		}
+		undo = append(undo, saved{id, id.Name})
+		id.Name = "(" + txt + ")"
+		return true
+	})
+	out := core.ExprStr(e)
+	for _, u := range undo {
+		u.id.Name = u.name
+	}
+	return out
 }
